@@ -49,7 +49,9 @@ Clauses(ev, run) ==
     <<"AllRemoteIsRemote", Flag(run, "allside") => AllSideIs(b, D, "remote", re)>>,
     <<"OrderedOK", OrderedOK(b, D)>>,
     <<"SamePathContiguous", SamePathContiguous(b, D)>>,
-    <<"DecisionSchemaOK", AllDecisionSchemaOK(D)>>,
+    <<"DecisionSchemaOK", IF Has(ev, "schemaActions")
+                          THEN AllDecisionSchemaOKFor(D, {ev.schemaActions[k] : k \in 1..Len(ev.schemaActions)})
+                          ELSE AllDecisionSchemaOK(D)>>,
     <<"PublishedSchemaOK", Has(run, "jsvalid") => run.jsvalid>>,
     <<"DecisionPlainJSON", AllDecisionPlainJSON(D)>>,
     <<"EmbeddedWellFormed", AllEmbeddedWF(b, D)>>,
